@@ -62,15 +62,60 @@ def thermal_hamiltonian_rule(chk, src):
                 used.append(("Mpo", model))
                 return Sym("h_mpo", model=model)
         tag = MpoTag("Mpo")
-        tag.__dict__["exact_propagator"] = lambda model, *a, **k: used.append(("exact_propagator", model)) or Sym("prop", apply=lambda st, **kw: Sym("new", normalize=lambda kind: None))
-        it = SymInterp(src, None, {"Mpo": tag, "Quantity": lambda x: ("Quantity", x)})
-        me = Sym("job", h_mpo=Sym("h_mpo", model="<requested model>"), energies=[Blob("E0"), Blob("E_last")], space="GS")
+        def _prop():
+            p_ = Sym("prop", apply=lambda st, **kw: Sym("new", normalize=lambda kind: None))
+            p_.__dict__.update(scale=lambda *a, **k: p_, copy=lambda: p_)
+            return p_
+        tag.__dict__["exact_propagator"] = lambda model, *a, **k: used.append(("exact_propagator", model)) or _prop()
+        from ..syminterp import OpenSym
+        it = SymInterp(src, None, {"Mpo": tag, "Quantity": lambda x: ("Quantity", x), "np": OpenSym("np", make=lambda t: Blob(t)), "xp": OpenSym("xp", make=lambda t: Blob(t))})
+        me = Sym("job", **{**src.init_defaults(TP, "ThermalProp"), "h_mpo": Sym("h_mpo", model="<requested model>"), "energies": [Blob("E0"), Blob("E_last")], "space": "GS"})
         state = Sym("old_mpdm", model="<model of the state>", evolve=lambda h, dt: Sym("evolved"))
         it.call_function(fi, [me, state, Blob("dt")])
         ok = len(used) == 1 and used[0][1] == "<requested model>"
         chk.ob("thermal-hamiltonian", qual, ok, fi.where, used, "generator built from self.h_mpo.model", line=fi.node.lineno,
                detail=f"{qual} builds its propagator from {used[0][1] if used else '?'}: when the job is given a Hamiltonian model different from the model the initial state was built with "
                       "(h_mpo_model argument), this path relaxes towards the Gibbs state of another Hamiltonian than the one the energies are computed with")
+    # ---- every step is propagated with that step's length and that step's energy shift: two consecutive calls on one job with different steps
+    import sympy as sp
+    fi = src.func(TP, "ThermalProp.evolve_exact")
+    H = sp.Symbol("H")
+
+    class Prop(Sym):
+        """exp(exponent) with exponent linear in the symbol H"""
+        def __init__(self, exponent, model):
+            super().__init__(f"exp({exponent})")
+            self.exponent, self.model = exponent, model
+
+        def scale(self, c, inplace=False):
+            return Prop(sp.expand(self.exponent + sp.log(c)), self.model)
+
+        def apply(self, st, **kw):
+            applied.append(self)
+            return Sym("new", normalize=lambda kind: None)
+
+        def copy(self):
+            return Prop(self.exponent, self.model)
+
+    class MpoNS(Sym):
+        def __call__(self, model, *a, **k):
+            return Sym("h_mpo", model=model)
+    ns = MpoNS("Mpo")
+    ns.__dict__["exact_propagator"] = lambda model, x, space="GS", shift=0.0: Prop(sp.expand(x * (H + shift)), model)
+    it = SymInterp(src, None, {"Mpo": ns, "Quantity": lambda x: x, "np": Sym("np", exp=sp.exp, iscomplex=lambda x: False), "xp": Sym("xp", exp=sp.exp)})
+    e1, e2, t1, t2 = sp.Symbol("E1", real=True), sp.Symbol("E2", real=True), sp.Symbol("t1", positive=True), sp.Symbol("t2", positive=True)
+    me = Sym("job", h_mpo=Sym("h_mpo", model="<requested model>"), energies=[e1], space="GS", **{k: v for k, v in src.init_defaults(TP, "ThermalProp").items() if k not in ("h_mpo", "energies", "space")})
+    state = Sym("old_mpdm", model="<model of the state>")
+    applied = []
+    it.call_function(fi, [me, state, Sym("dt1", imag=t1)])
+    me.energies.append(e2)
+    it.call_function(fi, [me, state, Sym("dt2", imag=t2)])
+    want = [sp.expand(t1 * (H - e1)), sp.expand(t2 * (H - e2))]
+    got = [sp.simplify(sp.expand_log(p.exponent, force=True)) for p in applied]
+    ok = len(got) == 2 and all(sp.simplify(g - w) == 0 for g, w in zip(got, want))
+    chk.ob("thermal-hamiltonian", "ThermalProp.evolve_exact: two consecutive steps of different length on one job", ok, fi.where, [str(g) for g in got], [str(w) for w in want], line=fi.node.lineno,
+           detail="each call must apply exp(x (H - E_last)) with x the imaginary part of *this* call's step and E_last the latest energy: a propagator kept from an earlier call "
+                  "re-applies the first step's length, so a cooling schedule with varying steps reaches another temperature than the one it reports")
     pm = src.func(TP, "ThermalProp.process_mps")
     e = [unparse(c).replace(" ", "") for c in ast.walk(pm.node) if isinstance(c, ast.Call) and isinstance(c.func, ast.Attribute) and c.func.attr == "expectation"]
     chk.ob("thermal-hamiltonian", "energies are expectation values of the requested Hamiltonian", any(x.endswith(".expectation(self.h_mpo)") for x in e), pm.where, e, "mps.expectation(self.h_mpo)", line=pm.node.lineno)
@@ -175,7 +220,7 @@ def run(chk):
     chk.assumptions = ["Mpo(model, offset=E) represents H - E (C01 offset-sign rule)", "exact_propagator(model, x, space, shift) documents exp(x (H + shift))"]
     chk.rule("evolve-exact-siblings", "Mps / MpDm.evolve_exact: same propagator arguments, phase on the returned object, offset cancels in the total exponent", 8)
     chk.rule("exact-propagator", "exact_propagator: scalar shift applied once as exp(shift*x); matrix exponential by eigendecomposition is V diag(exp(x w)) V^T; GS block is exp(x omega n)", 4)
-    chk.rule("thermal-siblings", "ThermalProp.evolve_exact and evolve_prop use the same shifted exponent", 3)
+    chk.rule("thermal-siblings", "ThermalProp.evolve_exact and evolve_prop apply the same shifted exponent to the previous state (abstract run)", 2)
     from . import tree_rules as TR
     TR.time_decoding(chk, src)
     chk.rule("imag-copy", "evolution schemes work on a fresh object in both time modes", 4)
@@ -222,31 +267,50 @@ def run(chk):
     # ---- the displaced-oscillator coupling used by the EX block is the model's (shared rule with C16)
     from . import C16
     C16.holstein_rule(chk, src)
-    # ---- thermal siblings
+    # ---- thermal siblings: abstract run of both propagation paths for a step dt = -i tau; both must apply exp(-tau (H - E_last)) to the previous state
     te = src.func(THERMAL, "ThermalProp.evolve_exact")
     tp = src.func(THERMAL, "ThermalProp.evolve_prop")
-    cal = [c for c in ast.walk(te.node) if isinstance(c, ast.Call) and unparse(c.func).endswith("exact_propagator")]
-    dtn = te.params()[2]
-    tau, E = sp.Symbol("tau", positive=True), sp.Symbol("E")
-    if len(cal) != 1:
-        raise AnalysisError(f"{te.where}: exact_propagator call not found")
-    x = C09.scalar_sym(cal[0].args[1], {dtn: -sp.I * tau})
-    shift = None
-    for k in cal[0].keywords:
-        if k.arg == "shift":
-            shift = C09.scalar_sym(ast.parse(unparse(k.value).replace("self.energies[-1]", "ELAST"), mode="eval").body, {"ELAST": E})
-    if shift is None and len(cal[0].args) > 3:
-        shift = C09.scalar_sym(ast.parse(unparse(cal[0].args[3]).replace("self.energies[-1]", "ELAST"), mode="eval").body, {"ELAST": E})
-    ex_exact = sp.expand(x * (H + shift)) if shift is not None else None
-    mp = [c for c in ast.walk(tp.node) if isinstance(c, ast.Call) and unparse(c.func) == "Mpo"]
-    offs = [unparse(k.value).replace(" ", "") for c in mp for k in c.keywords if k.arg == "offset"]
-    okp = offs == ["Quantity(self.energies[-1])"]
-    ex_prop = sp.expand(-sp.I * (-sp.I * tau) * (H - E))
-    chk.ob("thermal-siblings", "evolve_exact exponent = -tau (H - E_last)", ex_exact is not None and sp.simplify(ex_exact - ex_prop) == 0, te.where, str(ex_exact), str(ex_prop), line=cal[0].lineno,
-           detail="the exact thermal propagator must use x = Im(dt) = -tau and shift = -E_last, like the general path evolves H - E_last by dt = -i tau")
-    chk.ob("thermal-siblings", "evolve_prop builds H - E_last", okp, tp.where, offs, ["Quantity(self.energies[-1])"], line=tp.node.lineno)
-    ev = [unparse(r.value).replace(" ", "") for r in ast.walk(tp.node) if isinstance(r, ast.Return)]
-    chk.ob("thermal-siblings", "evolve_prop evolves the previous state with that operator", ev == [f"{tp.params()[1]}.evolve(h_mpo,{tp.params()[2]})"], tp.where, ev, "old_mpdm.evolve(h_mpo, evolve_dt)")
+    from ..syminterp import SymInterp, Sym, OpenSym, Blob
+    tau, E = sp.Symbol("tau", positive=True), sp.Symbol("E", real=True)
+    ex_want = sp.expand(-tau * (H - E))
+    applied = []
+
+    class _Prop(Sym):
+        def __init__(self, exponent):
+            super().__init__(f"exp({exponent})")
+            self.exponent = exponent
+
+        def scale(self, c, inplace=False):
+            return _Prop(sp.expand(self.exponent + sp.log(c)))
+
+        def copy(self):
+            return _Prop(self.exponent)
+
+        def apply(self, st, **kw):
+            applied.append(("apply", st, self.exponent))
+            return Sym("new", normalize=lambda kind: None)
+
+    class _MpoNS(Sym):
+        def __call__(self, model, terms=None, offset=None, **k):
+            return Sym("operator", model=model, expr=H - (offset if offset is not None else 0), terms=terms)
+    ns = _MpoNS("Mpo")
+    ns.__dict__["exact_propagator"] = lambda model, x, space="GS", shift=0.0: _Prop(sp.expand(x * (H + shift)))
+    dt = Sym("dt", imag=-tau, real=0, value=-sp.I * tau)
+
+    def evolve(h, d, *a, **k):
+        applied.append(("evolve", state, sp.expand(-sp.I * (d.value if isinstance(d, Sym) else d) * h.expr) if getattr(h, "terms", None) is None else "operator built from a term subset"))
+        return Sym("evolved")
+    state = Sym("old_mpdm", model="<model of the state>", evolve=evolve)
+    for fi_, label in ((te, "evolve_exact"), (tp, "evolve_prop")):
+        applied.clear()
+        it = SymInterp(src, None, {"Mpo": ns, "Quantity": lambda x, *a: x, "np": Sym("np", exp=sp.exp, iscomplex=lambda x: False), "xp": Sym("xp", exp=sp.exp)})
+        me = Sym("job", **{**src.init_defaults(THERMAL, "ThermalProp"), "h_mpo": Sym("h_mpo", model="<requested model>"), "energies": [sp.Symbol("E_first"), E], "space": "GS"})
+        it.call_function(fi_, [me, state, dt])
+        got = [(k, st is state, (sp.simplify(sp.expand_log(ex, force=True)) if isinstance(ex, sp.Expr) else ex)) for k, st, ex in applied]
+        ok = len(got) == 1 and got[0][1] and isinstance(got[0][2], sp.Expr) and sp.simplify(got[0][2] - ex_want) == 0
+        chk.ob("thermal-siblings", f"{label}: applies exp(-tau (H - E_last)) to the previous state", ok, fi_.where, [(k, "previous state" if s_ else "another object", str(x)) for k, s_, x in got],
+               f"exp({ex_want}) applied to the previous state", line=fi_.node.lineno,
+               detail="the exact path (x = Im(dt) = -tau, shift = -E_last) and the general path (H - E_last evolved by dt = -i tau) must apply the same operator: the latest energy is the shift of both")
     # ---- imaginary-time solver pairs (same engine as C09, imaginary rows only)
     n = 0
     for qual in ("Mps._evolve_tdvp_ps", "Mps._evolve_tdvp_ps2", "Mps._evolve_tdvp_mu_cmf"):
